@@ -190,7 +190,7 @@ impl Property for P {
     fn workloads(&self, tier: Tier) -> Vec<Workload> {
         vec![
             Workload::new("oneshot", CELLS, true, "every cell, one-shot I/O"),
-            Workload::new("scheduled", CELLS * tier.pick(2, 7), false, "every cell again under seeded random I/O schedules"),
+            Workload::new("scheduled", CELLS * tier.pick(2, 60), false, "every cell again under seeded random I/O schedules"),
         ]
     }
     fn run_case(&self, wl: &str, idx: u64, seed: u64, rec: &mut Rec) {
